@@ -236,6 +236,18 @@ func (w *World) mErgoDir(ex *Exec, c *callCtx) Value {
 	return TupleV{E: []Value{StrV{T: UF("ergodir", SInt, w.dirAtom)}, NilRef()}}
 }
 
+func mJoinGeneric(ex *Exec, c *callCtx) Value {
+	sl := c.args[0].(RefV)
+	st := sl.Alts[0].Tgt.(SliceT)
+	arr := st.Arr.val.(ArrayV)
+	n := int(st.Len.SVal())
+	acc := arr.E[st.Off].(StrV).T
+	for i := 1; i < n; i++ {
+		acc = UF("pathjoin", SInt, acc, arr.E[st.Off+i].(StrV).T)
+	}
+	return StrV{T: acc}
+}
+
 func (w *World) mJoin(ex *Exec, c *callCtx) Value {
 	// variadic slice of atoms -> nested UF
 	sl := c.args[0].(RefV)
